@@ -1,7 +1,7 @@
 (* Correspondence harness for OP (C01-C06): the model at float32 rounding ([f32]) against recorded traces, and the
    exact specification evaluated on the implementation's own episodes. *)
 From Coq Require Import ZArith List Bool Lia Arith.
-From RL4CO Require Import Base.Num Base.EnvSig Spec.Routes Env.OP Env.OPProofs Harness.HEnv.
+From RL4CO Require Import Base.Num Base.EnvSig Spec.Routes Env.OP Env.OPProofs Harness.HEnv Harness.HBook.
 Import ListNotations.
 Open Scope Z_scope.
 
@@ -63,3 +63,13 @@ Definition check_C06 (c : op_case) : Z := verdict_code (c_inst c) (trace_actions
 
 Definition check_C06_sol (c : (op_inst * Z) * list nat * bool) : Z :=
   match c with ((i, _), acts, verdict) => verdict_code i acts verdict end.
+
+(* ---------------------------------------------------------------- bookkeeping (C02 / C04, see Harness/HBook.v)
+   keys of the env's step output compared after every step, in this order:
+   i (= number of steps taken), current_node (= the action just taken), tour_length, current_total_prize,
+   visited (bit j = node j) *)
+Definition book_obs (s : op_st) : list Z := [Z.of_nat (ocnt s); Z.of_nat (ocur s); otl s; otot s; bitsZ (ovis s)].
+Definition book_kinds : list nat := [1; 2; 0; 0; 0]%nat.
+Definition op_book := ((op_inst * Z) * list Z * list Z * list (nat * list Z))%type.
+Definition check_book (c : op_book) : Z :=
+  match c with (i, tols, o0, tr) => book_check (OP f32) (fst i) book_obs book_kinds tols o0 tr end.
